@@ -66,6 +66,11 @@ def gen_names(rng, n, special_p):
                 segs[-1] = base[min(len(segs) - 1, len(base) - 1)][:2] + segs[-1]
         else:
             segs = [gen_segment(rng, special_p) for _ in range(depth)]
+        if names and rng.random() < 0.08:
+            # a name that differs from an existing one only in letter case or Unicode normal form
+            alike = gen._look_alike(rng, rng.choice(names))
+            if alike:
+                segs = alike.split('/')
         name = '/'.join(segs)
         if any(len(s.encode()) > 255 for s in segs):
             continue
